@@ -55,6 +55,31 @@ Example ex_mutants_rejected :
   verify Hc 1 root root es = RErr EMalformed.
 Proof. vm_compute. repeat split. Qed.
 
+(* entries in the FULL (non-compact) node encoding: the claimed child hashes are
+   ignored, the node is hashed over the children the proof supplies.  With the
+   honest children the proof is accepted exactly as the compact one; with a
+   fabricated or missing child it is rejected even though the claimed hashes
+   are the real ones. *)
+Definition with_claim (c : bytes * bytes) (e : pentry) : pentry :=
+  match e with EFull (NInt bl lb lf _) => EFull (NInt bl lb lf (Some c)) | _ => e end.
+
+Example ex_noncompact :
+  let es := build_get_proof Hc 0 false [128] ex_t in
+  let root := root_hash Hc ex_t in
+  let real := (root_hash Hc (match ex_t with Node _ _ l _ => l | _ => Nil end),
+               root_hash Hc (match ex_t with Node _ _ _ r => r | _ => Nil end)) in
+  let full := match es with e :: rest => with_claim real e :: rest | [] => [] end in
+  (* honest children *)
+  verify Hc 0 root root full = verify Hc 0 root root es /\
+  (exists p, verify Hc 0 root root full = ROk p) /\
+  (* fabricated right child: the present key [128] with another value *)
+  verify Hc 0 root root (removelast full ++ [EFull (NLeaf [128] [66])]) = RErr EBadRoot /\
+  (* dropped right subtree *)
+  verify Hc 0 root root (removelast full ++ [ENil]) = RErr EBadRoot /\
+  (* no children at all *)
+  verify Hc 0 root root (firstn 1 full) = RErr EMalformed.
+Proof. vm_compute. repeat split. eexists. reflexivity. Qed.
+
 (* ---------------- the depth limit ---------------- *)
 (* 130 keys, each a prefix of the next: the trie is a chain of 129 internal
    nodes and a leaf, so the honest proof for the longest key has an entry at
